@@ -293,9 +293,10 @@ class Call(Contract):
         """numeric evaluation at ARRAY points: result[i ++ j] = sum_t C(t, i) * prod_d a_d[j]**E(t, d), shape poly.shape + broadcast(arg shapes)"""
         from engine.logic import unfold_at, bshape, bok, proj
         from engine.polymodel import concat_axioms, ileft, iright
-        for label, D, args, kwargs in (("D1.array_positional", 1, (0,), {}), ("D2.arrays_positional", 2, (0, 1), {}),
-                                       ("D2.arrays_mixed", 2, (0,), {"q1": 1})):
-            def make_env(ex, D=D, args=args, kwargs=kwargs):
+        for label, D, args, kwargs, kinds in (("D1.array_positional", 1, (0,), {}, "a"), ("D2.arrays_positional", 2, (0, 1), {}, "aa"),
+                                              ("D2.arrays_mixed", 2, (0,), {"q1": 1}, "aa"),
+                                              ("D2.array_and_number", 2, (0, 1), {}, "an"), ("D2.number_and_array_keyword", 2, (), {"q0": 0, "q1": 1}, "na")):
+            def make_env(ex, D=D, args=args, kwargs=kwargs, kinds=kinds):
                 ctx = ex.ctx
                 for a in shape_axioms(ctx) + extra_shape_axioms(ctx) + mono_axioms(ctx) + order_axioms(ctx) + eok_axioms() + concat_axioms(ctx):
                     ctx.assume(a)
@@ -307,11 +308,15 @@ class Call(Contract):
                     ctx.assume(nat(P.names, d) == as_name(ex, NAMES[d]))
                 pts = []
                 for d in range(D):
+                    if kinds[d] == "n":
+                        pts.append(ctx.real(f"point{d}"))        # a plain number
+                        continue
                     f = ctx.func(f"point{d}", Idx, R)
                     pts.append(Arr(ctx.const(f"shape_point{d}", Shp), lambda i, f=f: f(i), "real", ctx.const(f"dt_point{d}", DT),
                                    Region("caller", f"point{d}")))
-                T = pts[0].shape
-                for a in pts[1:]:
+                arrs = [a for a in pts if isinstance(a, Arr)]
+                T = arrs[0].shape
+                for a in arrs[1:]:
                     ctx.assume(bok(T, a.shape))                 # precondition: the argument shapes broadcast
                     T = bshape(T, a.shape)
                 ST = sconcat(P.shape, T)
@@ -323,6 +328,9 @@ class Call(Contract):
                 def term(t, j):
                     out = z3.RealVal(1)
                     for d in range(D):
+                        if not isinstance(pts[d], Arr):
+                            out = out * rpow(pts[d], expo(P.row(t), d))
+                            continue
                         jd = j if z3.eq(pts[d].shape, T) else proj(j, T, pts[d].shape)
                         out = out * rpow(pts[d].elem(jd), expo(P.row(t), d))
                     return out
